@@ -87,6 +87,9 @@ fn main() {
         i += 1;
     }
 
+    if ctx.tool.starts_with("miri") || ctx.params.contains_key("small") {
+        tlsh_verif::gen::set_small(true);
+    }
     if monitor == "selftest" {
         match oracle::selfcheck().and_then(|_| oracle::katcheck()) {
             Ok(n) => {
